@@ -127,4 +127,176 @@ theorem mask_exact_of_covers (c : Cache) (t : Tok) (hlen : c.cells.length = c.ro
     simp only [List.mem_range] at hj
     exact hnone j hj (by omega)
 
+theorem inv_defrag (c : Cache) (h : Inv c) : Inv (defrag c) :=
+  defrag_inv c h (defragCore_moved _ _ _).1 (defragCore_moved _ _ _).2
+
+theorem finishForward_covers (c : Cache) (loc : Nat) (b : List Tok) (h : Inv c)
+    (hfit : loc + b.length ≤ c.cells.length) (hpos : 0 < c.cells.length) :
+    Inv (finishForward c loc b) ∧ ∀ t ∈ b, Covers (finishForward c loc b) t := by
+  have h0 : Inv { c with curLoc := loc, curRange := Range.new } := ⟨h.len, h.cover, h.rmax, h.pad⟩
+  have hc0 : CurOK { c with curLoc := loc, curRange := Range.new } [] :=
+    ⟨by intro t ht; simp at ht, Or.inr rfl⟩
+  obtain ⟨hi, hsub⟩ := place_inv _ loc b [] h0 hc0 hfit
+  have hcm := place_cmax _ loc b [] h0 hc0 hfit
+  have hl := place_length { c with curLoc := loc, curRange := Range.new } loc b
+  have hp := place_pad { c with curLoc := loc, curRange := Range.new } loc b
+  simp only at hl hp hcm
+  unfold finishForward
+  simp only
+  refine ⟨⟨hi.len, hi.cover, hi.rmax, hi.pad⟩, ?_⟩
+  intro t ht
+  have hpad := hi.pad
+  rw [hl, hp] at hpad
+  constructor
+  · simp only [padRange, hl, hp]
+    have h1 := roundUp_le ((place { c with curLoc := loc, curRange := Range.new } loc b).curRange.max + 1)
+      c.cachePad c.cells.length hpad.1 hpad.2 (by omega)
+    have h2 := roundUp_ge ((place { c with curLoc := loc, curRange := Range.new } loc b).curRange.max + 1)
+      c.cachePad hpad.1
+    omega
+  · intro j hj hs
+    obtain ⟨r, hr, hmin, hmax⟩ := hi.cover j hj t.seq hs
+    obtain ⟨r', hr', hmin', hmax'⟩ := hsub t (Or.inl ht)
+    rw [hr] at hr'; cases hr'
+    simp only [padRange, hp]
+    have h1 := roundDown_le (place { c with curLoc := loc, curRange := Range.new } loc b).curRange.min c.cachePad
+    have h2 := roundUp_ge ((place { c with curLoc := loc, curRange := Range.new } loc b).curRange.max + 1)
+      c.cachePad hpad.1
+    omega
+
+theorem findStart_fits (cells : List Cell) (k s : Nat) (h : findStart cells k = some s) :
+    s + k ≤ cells.length ∧ 0 < cells.length := by
+  have := findStartFrom_fits k cells 0 0 0 s h rfl
+  omega
+
+/-- **Invariant preservation and coverage for StartForward** (all caches satisfying the invariant,
+    all batches, with or without a window, with or without the defrag-and-retry path, pinned or
+    repaired defrag): after a successful `StartForward` the invariant holds again and every batch
+    token's sequence lies inside the range covered by the mask and the K/V views. -/
+theorem startForward_covers (c : Cache) (b : List Tok) (h : Inv c) (hok : (startForward c b).2 = .ok) :
+    Inv (startForward c b).1 ∧ ∀ t ∈ b, Covers (startForward c b).1 t := by
+  have h1 : Inv (slide { c with curBatch := b } b) := slide_inv _ b ⟨h.len, h.cover, h.rmax, h.pad⟩
+  unfold startForward at hok ⊢
+  simp only at hok ⊢
+  cases hf : findStart (slide { c with curBatch := b } b).cells b.length with
+  | some loc =>
+    simp only [hf]
+    obtain ⟨hfit, hpos⟩ := findStart_fits _ _ _ hf
+    exact finishForward_covers _ loc b h1 hfit hpos
+  | none =>
+    simp only [hf] at hok ⊢
+    split at hok
+    · cases hok
+    · rename_i hne
+      simp only [hne, Bool.false_eq_true, if_false] at ⊢
+      cases hf2 : findStart (defrag (slide { c with curBatch := b } b)).cells b.length with
+      | some loc =>
+        simp only [hf2]
+        obtain ⟨hfit, hpos⟩ := findStart_fits _ _ _ hf2
+        exact finishForward_covers _ loc b (inv_defrag _ h1) hfit hpos
+      | none => simp [hf2] at hok
+
+/-- `Put` keeps the invariant and the coverage (it only writes rows) -/
+theorem putRows_length (rows : List Row) (idx : Nat) (ids : List Nat) : (putRows rows idx ids).length = rows.length := by
+  induction ids generalizing rows idx with
+  | nil => rfl
+  | cons a as ih => simp [putRows, ih]
+
+/-- **mask_exact** — the headline theorem.  For every cache state satisfying the invariant and every
+    batch: if `StartForward` succeeds (then `Put` stores the batch's rows), then for every batch token
+    the entries its mask row exposes, together with the row data found there, are exactly the entries
+    of the abstract state visible to that token (same sequence, position ≤ its own, inside the
+    window) — nothing from other sequences, later positions or removed ranges, and nothing of what the
+    cache holds is missing. -/
+theorem mask_exact (c : Cache) (b : List Tok) (ids : List Nat) (h : Inv c)
+    (hok : (startForward c b).2 = .ok) :
+    let c' := put (startForward c b).1 ids
+    ∀ t ∈ b, exposedEntries c' t = visible c'.window (abs c') t.seq t.pos := by
+  intro c' t ht
+  obtain ⟨hi, hcov⟩ := startForward_covers c b h hok
+  apply mask_exact_of_covers
+  · show (startForward c b).1.cells.length = (putRows _ _ _).length
+    rw [putRows_length]; exact hi.len
+  · exact hcov t ht
+
+/-- the initial cache satisfies the invariant -/
+theorem inv_init (v : Variant) (w : Option Int) (maxSeq capacity maxBatch cachePad batchPad : Nat) (hs : Bool) :
+    Inv (Causal.init v w maxSeq capacity maxBatch cachePad batchPad hs) := by
+  unfold Causal.init
+  simp only
+  refine ⟨by simp, ?_, by intro s r hr; simp at hr, ?_⟩
+  · intro j hj s hs
+    simp only [List.getElem_replicate, Cell.empty] at hs
+    simp at hs
+  · constructor
+    · show 0 < (if cachePad = 0 then 1 else cachePad)
+      split <;> omega
+    · simp only [List.length_replicate, roundUp]
+      exact Nat.mul_mod_left _ _
+
+/-! ### Witnesses of the defects the model shares with the code -/
+
+def fwd (c : Cache) (b : List (Tok × Nat)) : Cache :=
+  put (startForward c (b.map (·.1))).1 (b.map (·.2))
+
+/-- the minimal F14 history (corpus line 1): 5 cells; store pos 0..4 (ids 1..5); Remove(0,0,2);
+    Remove(0,2,∞); store 3 tokens (ids 6..8) ⇒ defrag fills holes 0,1 from cells 3,2 -/
+def f14 (v : Variant) : Cache :=
+  let c1 := fwd (Causal.init v none 1 5 5 1 1 true) [(⟨0, 0⟩, 1), (⟨0, 1⟩, 2), (⟨0, 2⟩, 3), (⟨0, 3⟩, 4), (⟨0, 4⟩, 5)]
+  let c2 := (Causal.remove c1 0 0 2).1
+  let c3 := (Causal.remove c2 0 2 maxInt32).1
+  fwd c3 [(⟨0, 2⟩, 6), (⟨0, 3⟩, 7), (⟨0, 4⟩, 8)]
+
+/-- **F14 witness.** Pinned `defrag`: the cell labelled position 1 holds the row stored for position 0
+    (id 3) and vice versa; the repaired variant keeps every row with its cell. -/
+theorem F14_defrag_swaps_rows :
+    (abs (f14 {})).map (fun e => (e.pos, e.id)) = [(1, 3), (0, 4), (2, 6), (3, 7), (4, 8)] ∧
+    (abs (f14 { fixDefrag := true })).map (fun e => (e.pos, e.id)) = [(0, 3), (1, 4), (2, 6), (3, 7), (4, 8)] := by
+  decide
+
+/-- **F3 witness** (the defect is the caller's, C07): `Remove(seq, 0, −1)` is not "everything":
+    nothing is removed and every position is shifted by +1. -/
+theorem F3_remove_minus_one_is_not_infinity :
+    let c := fwd (Causal.init {} none 1 4 4 1 1 true) [(⟨0, 0⟩, 1), (⟨0, 1⟩, 2), (⟨0, 2⟩, 3)]
+    (abs (Causal.remove c 0 0 (-1)).1).map (fun e => (e.pos, e.id, e.shift)) = [(1, 1, 1), (2, 2, 1), (3, 3, 1)] ∧
+    (abs (Causal.remove c 0 0 maxInt32).1) = [] := by
+  decide
+
+/-- **F23 witness.** First batch larger than the cache: pinned `StartForward` panics (division by the
+    number of layers = 0 inside defrag) instead of reporting a full cache. -/
+theorem F23_defrag_without_layers :
+    (startForward (Causal.init {} none 1 1 3 1 1 true) [⟨0, 0⟩, ⟨0, 1⟩]).2 = .panic ∧
+    (startForward (Causal.init { fixDiv := true } none 1 1 3 1 1 true) [⟨0, 0⟩, ⟨0, 1⟩]).2 = .full := by
+  decide
+
+/-- **F15 witness** (window 1): after two middle removals the token stored at position 1 should see
+    the entry stored for position 0 (id 1) — the spec without eviction has it in the window — but the
+    cache evicted it when position 2 was stored. -/
+theorem F15_window_entry_missing :
+    let c0 := Causal.init {} (some 1) 1 2 2 1 1 true
+    let c1 := fwd c0 [(⟨0, 0⟩, 1), (⟨0, 1⟩, 2)]
+    let c2 := fwd c1 [(⟨0, 2⟩, 3)]
+    let c3 := (Causal.remove (Causal.remove c2 0 1 2).1 0 1 2).1
+    let c4 := fwd c3 [(⟨0, 1⟩, 4)]
+    (exposedEntries c4 ⟨0, 1⟩).map (·.id) = [4] ∧
+    (do let s1 ← KV.remove (store (store [] [(⟨0, 0⟩, 1), (⟨0, 1⟩, 2)]) [(⟨0, 2⟩, 3)]) 0 1 2
+        let s2 ← KV.remove s1 0 1 2
+        pure ((visible (some 1) (store s2 [(⟨0, 1⟩, 4)]) 0 1).map (·.id))) = some [1, 4] := by
+  decide
+
+/-- **F15b witness** (window 2): fork of a sequence whose window has slid; `CanResume` approves
+    position 8 although position 6 is not in the cache; the repaired variant refuses. -/
+def f15b (v : Variant) : Cache :=
+  let c := (List.range 10).foldl (fun c i => fwd c [(⟨0, Int.ofNat i⟩, i + 1)]) (Causal.init v (some 2) 2 16 4 1 1 true)
+  Causal.copyPrefix c 0 1 8
+
+theorem F15b_canResume_unsound :
+    canResume (f15b {}) 1 8 = true ∧ (abs (f15b {})).map (fun e => (e.pos, e.seqs)) = [(7, [0, 1]), (8, [0]), (9, [0])] ∧
+    canResume (f15b { fixResume := true }) 1 8 = false := by
+  decide
+
+/-- non-vacuity of `mask_exact`: a concrete non-trivial state satisfies its hypotheses -/
+example : (startForward (f14 {}) [⟨0, 5⟩]).2 = .full ∧
+    (startForward (Causal.remove (f14 {}) 0 3 maxInt32).1 [⟨0, 3⟩]).2 = .ok := by decide
+
 end OllamaVerif.C06
